@@ -27,6 +27,9 @@ CONSTANTS
   SelfSendViaChannel = FALSE
   NegCodeIsErr = TRUE
   CtrlBatch = 0
+  StartIdle = FALSE
+  EveryExitStops = TRUE
+  RxDropAtLoopEnd = TRUE
 SPECIFICATION Spec
 VIEW View
 SYMMETRY ThrSym
